@@ -273,7 +273,13 @@ func (x *Exec) intrinsic(fr *Frame, st *State, ins ssa.Instruction, cc *ssa.Call
 		}
 		k := x.val(fr, st, mi.X)
 		cur, ok := st.iters[cellKey2{rf.id, rng}]
-		if !ok {
+		if !ok && x.inPass1(fr) {
+			// first pass of an old()-using clause (evaluated in the entry state only to record the
+			// old values): an unknown truth value, so that every sub-expression is visited
+			nm := "pass1_" + mangle(string(k.Sort))
+			vc.declareFun(nm, []Sort{k.Sort}, SBool)
+			fr.regs[res] = app(SBool, nm, k)
+		} else if !ok {
 			// before the range statement started: nothing visited
 			fr.regs[res] = tFalse
 		} else {
